@@ -224,3 +224,18 @@ package massdb_v1
 //@ func createMapFile$1
 //@   attr effect:fs.remove
 //@   assert-at call Remove removes-only-the-new-file: arg0 == filePath
+
+// ---- record placement (C07): table A holds x in the slot of its y value, table B holds at slot z the ordered pair
+// whose FB value is z
+//@ func (*MassDBV1).prePlotWork
+//@   assert-at call PutUint64 record-is-the-preimage: arg2 == x
+//@   assert-at call WriteAt preimage-stored-in-the-slot-of-its-y-value: len(arg1) == recordSize && arg1[0] == x % 256 && arg2 == (ite(lastresult("P") < half, lastresult("P") * 2, lastresult("FlipValue") * 2 + 1) - startPoint) * recordSize
+//@   assert-at call FlipValue upper-half-values-are-flipped: arg0 == lastresult("P") && arg1 == bl && lastresult("P") >= half
+
+//@ func (*MassDBV1).plotWork
+//@   assert-at call FB#1 first-ordering: arg0 == x && arg1 == xp
+//@   assert-at call FB#2 second-ordering: arg0 == xp && arg1 == x
+//@   assert-at call WriteAt#1 slot-z-holds-the-first-element-of-its-pair: arg1 == x && arg2 == (lastresult("FB#1") - doubleStartPoint) * recordSize * 2
+//@   assert-at call WriteAt#2 then-the-second-element: arg1 == xp && arg2 == (lastresult("FB#1") - doubleStartPoint) * recordSize * 2 + recordSize
+//@   assert-at call WriteAt#3 slot-z-prime-holds-the-first-element-of-its-pair: arg1 == xp && arg2 == (lastresult("FB#2") - doubleStartPoint) * recordSize * 2
+//@   assert-at call WriteAt#4 then-the-second-element: arg1 == x && arg2 == (lastresult("FB#2") - doubleStartPoint) * recordSize * 2 + recordSize
